@@ -226,6 +226,26 @@ def run(ctx) -> None:
     n += _probe_modes(h, vb, samples)
     n += _probe_vectors(h, vb, samples)
 
+    # ---- R: the register table as the Rust core implements it (names, widths, sub-register layout, r3 selectors) --
+    from . import c08, c06
+    from ..core import VB as _VB
+    base_hist = [("BA", 0x1234), ("I", 0xABCD), ("X", 0x12345), ("Y", 0x54321), ("U", 0x0F0F0), ("S", 0xA5A5A), ("F", 0x03)]
+    rvb = _VB()
+    hists = [tuple(base_hist + [(t, v)]) for t in c08.NAMES for v in (0x5A, 0xFFFFFF)] + [((t, 0x96),) for t in c08.NAMES]
+    outs = h.batch([c08.rs_script(hh) for hh in hists])
+    for hh, o in zip(hists, outs):
+        c08.judge(hh, o, rvb)
+        n += 1
+    st_r = {"bpx": (0x10, 0x23, 0x45), "bg": {"BA": 0x12FF, "I": 0x34FF, "X": 0x2FFFF, "Y": 0x3FFFF, "U": 0x4FFFF, "S": 0x5FFFF}, "F": 0, "fill": 0x101}
+    for opc in (0x6C, 0x7C):
+        for sel in range(8):
+            d = bytes([opc, sel]) + bytes(4)
+            regs_, mem_, fill_ = c06.build_case(d, st_r, 0x1000)
+            c06.judge_case(d, st_r, 0x1000, h.call(c06.rs_req(regs_, mem_, fill_)), rvb, f"r3-selector-{sel}")
+            n += 1
+    for sig, (cnt, wl) in rvb.d.items():
+        what, wit = wl[0]
+        vb.add("C17/register-table-behaviour/" + sig.split("/", 1)[1], what, {"regtable": True, "sig": sig})
     # ---- V: view segments ----------------------------------------------------------
     from sc62015 import view as V
     for cls in (V.SC62015RomView, V.SC62015FullView):
@@ -380,16 +400,13 @@ def _probe_vectors(h, vb, samples) -> int:
     return cnt
 
 
-def replay(ctx, w) -> Optional[str]:
-    # the configuration space is tiny: re-run everything and report whether the same class is still seen
-    sub = core_run_collect()
-    return sub
-
-
-def core_run_collect() -> Optional[str]:
+def replay(ctx, w, sig=None) -> Optional[str]:
+    # the configuration space is tiny: re-run everything and report whether the same signature is still seen
     from ..core import Ctx
     c = Ctx("C17", "quick", 0, replaying=True)
     run(c)
-    for sig in sorted(c.found):
-        return c.found[sig][0][0]
+    if sig is not None:
+        return c.found[sig][0][0] if sig in c.found else None
+    for s_ in sorted(c.found):
+        return c.found[s_][0][0]
     return None
